@@ -245,7 +245,7 @@ def main(argv=None):
             nviol += 1
             exit_code = 1
             print("VIOLATION property=%s replay=%s" % (prop, rpath))
-            print("  signature: %s\n  what: %s\n  occurrences: %d" % (sig, what, cnt))
+            print("  signature: %s\n  what: %s\n  occurrences: %d" % (sig, what if len(what) <= 700 else what[:700] + " ...", cnt))
 
     level = mod.LEVEL
     cov = {
